@@ -45,6 +45,18 @@ pub trait Unweighted:
     fn build_alt(m: &Model) -> Self;
 }
 
+/// The arcs of `m` in an arrival order that depends on the model: ascending,
+/// descending, or scrambled (From<iterator of arcs> must not care).
+pub fn arcs_in_some_order(m: &Model) -> Vec<(usize, usize)> {
+    let mut a = m.arc_list();
+    match m.size() % 3 {
+        0 => {}
+        1 => a.reverse(),
+        _ => a.sort_by_key(|&(u, v)| crate::rng::mix((u as u64) << 32 ^ v as u64 ^ m.size() as u64)),
+    }
+    a
+}
+
 fn rows(m: &Model) -> Vec<BTreeSet<usize>> {
     (0..m.n()).map(|u| m.out(u).into_iter().collect()).collect()
 }
@@ -70,7 +82,7 @@ impl Unweighted for AdjacencyMatrix {
         // digraph when the top vertex has an arc.
         let top = m.n() - 1;
         if m.size() > 0 && m.arcs.keys().any(|&(u, v)| u == top || v == top) {
-            AdjacencyMatrix::from(m.arc_list())
+            AdjacencyMatrix::from(arcs_in_some_order(m))
         } else {
             AdjacencyMatrix::from(AdjacencyList::from(rows(m)))
         }
@@ -82,7 +94,7 @@ impl Unweighted for EdgeList {
     fn build_alt(m: &Model) -> Self {
         let top = m.n() - 1;
         if m.arcs.keys().any(|&(u, v)| u == top || v == top) || m.n() == 1 {
-            EdgeList::from(m.arc_list())
+            EdgeList::from(arcs_in_some_order(m))
         } else {
             EdgeList::from(AdjacencyList::from(rows(m)))
         }
@@ -96,14 +108,29 @@ impl Unweighted for EdgeList {
 pub fn build_map_any(m: &Model) -> AdjacencyMap {
     assert!(m.n() > 0);
     let mut d = AdjacencyMap::empty(1);
-    for &v in &m.verts {
-        if v != 0 {
-            d.add_arc(0, v);
-            let _ = d.remove_arc(0, v);
+    if m.size() % 2 == 1 {
+        // arcs first, in a model-dependent arrival order: every endpoint is
+        // admitted by the add_arc that first mentions it (as a tail or as a
+        // head); the vertices without arcs come last
+        for (u, v) in arcs_in_some_order(m) {
+            d.add_arc(u, v);
         }
-    }
-    for &(u, v) in m.arcs.keys() {
-        d.add_arc(u, v);
+        for &v in &m.verts {
+            if v != 0 && !graaf::HasArc::has_arc(&d, 0, v) {
+                d.add_arc(0, v);
+                let _ = d.remove_arc(0, v);
+            }
+        }
+    } else {
+        for &v in &m.verts {
+            if v != 0 {
+                d.add_arc(0, v);
+                let _ = d.remove_arc(0, v);
+            }
+        }
+        for &(u, v) in m.arcs.keys() {
+            d.add_arc(u, v);
+        }
     }
     if !m.verts.contains(&0) {
         d = d.filter_vertices(|v| v != 0);
